@@ -184,17 +184,20 @@ def meta_unit(spec):
     from .vc import real_module
     t0 = time.time()
     mod = real_module('utils.py')
-    pat = mod.RE_META
+    # every module-level pattern detect_encoding may search with
+    pats = [getattr(mod, n) for n in sorted(vars(mod)) if n.startswith('RE_META')
+            and isinstance(getattr(mod, n), re.Pattern)]
     obls = []
     try:
-        target = occurs(translate(pat))
+        parts = [occurs(translate(p)) for p in pats]
+        target = z3.Union(*parts) if len(parts) > 1 else parts[0]
         err = None
     except Untranslatable as e:
         target, err = None, str(e)
     for order, text in META_SPECS.items():
         o = {'name': 're_meta.order[%s]' % order, 'expect': 'valid', 'okind': 'struct',
              'text': 'wherever a meta content-type element with the attributes in the order %s occurs, '
-                     'RE_META.search finds a match (language inclusion)' % order}
+                     'one of the RE_META* patterns finds a match (language inclusion)' % order}
         if target is None:
             o.update(status='unknown', backend='regexlang', time=0.0, tried='translate', reason=err)
             obls.append(o)
@@ -209,7 +212,7 @@ def meta_unit(spec):
             wit = None
             for s in META_SAMPLES[order]:
                 doc = '<html><head>%s</head></html>' % s
-                if re.search(text, doc, re.I) and pat.search(doc) is None:
+                if re.search(text, doc, re.I) and all(p.search(doc) is None for p in pats):
                     got = mod.detect_encoding(doc.encode('ascii'), 'utf-8')
                     wit = {'inputs': {'body': doc, 'default_encoding': 'utf-8'},
                            'detail': 'detect_encoding returns %r: the declared charset is ignored' % (got,)}
